@@ -49,6 +49,7 @@ type vTrigScenario struct {
 	cfg         vTrigCfg
 	ctrl        int
 	pulses      []int
+	slow        []int // start samples of slow pulses: they cross the level threshold without meeting the edge criterion
 	L           int
 	truth       [][]RawType
 	vals        []int // channel 0 as integers (signed or unsigned interpretation)
@@ -80,7 +81,7 @@ func vFromRaw(r RawType, signed bool) int {
 }
 
 // vMakeTruth builds two channels of position-dependent data; channel 0 carries the pulses.
-func vMakeTruth(L int, signed bool, sign int, pulses []int) [][]RawType {
+func vMakeTruth(L int, signed bool, sign int, pulses []int, slow ...int) [][]RawType {
 	truth := make([][]RawType, 2)
 	for ch := 0; ch < 2; ch++ {
 		truth[ch] = make([]RawType, L)
@@ -90,6 +91,17 @@ func vMakeTruth(L int, signed bool, sign int, pulses []int) [][]RawType {
 				for _, p := range pulses {
 					if f >= p {
 						a := 400 - 30*(f-p)
+						if a > 0 {
+							v += sign * a
+						}
+					}
+				}
+				for _, p := range slow { // 15 per sample up to 210, then down again: never an edge (4-sample difference <= 60+ripple)
+					if k := f - p; k >= 0 {
+						a := 15 * k
+						if k > 14 {
+							a = 210 - 15*(k-14)
+						}
 						if a > 0 {
 							v += sign * a
 						}
@@ -121,6 +133,8 @@ func vTrigConfigs(signed bool, withEMT bool) []vTrigCfg {
 	add("auto-veto", +1, TriggerState{AutoTrigger: true, AutoDelay: 3 * time.Millisecond, AutoVetoRange: 100})
 	add("edge+level+auto", +1, TriggerState{EdgeTrigger: true, EdgeRising: true, EdgeLevel: 100,
 		LevelTrigger: true, LevelRising: false, LevelLevel: vLevelThreshold(signed, +1), AutoTrigger: true, AutoDelay: 9 * time.Millisecond})
+	add("edge+level", +1, TriggerState{EdgeTrigger: true, EdgeRising: true, EdgeLevel: 100,
+		LevelTrigger: true, LevelRising: true, LevelLevel: vLevelThreshold(signed, +1)})
 	add("edge-both", -1, TriggerState{EdgeTrigger: true, EdgeRising: true, EdgeFalling: true, EdgeLevel: 100})
 	if withEMT {
 		for _, m := range []struct {
@@ -515,6 +529,30 @@ func vTrigCases(r *vexp.Runner, withEMT bool, each func(id string, sc *vTrigScen
 						id := fmt.Sprintf("n%d-%d/signed=%v/%s/%s/pulses=%v", g.npre, g.nsamp, signed, cfg.name, vCtrlNames[ctrl], ps)
 						each(id, sc)
 					}
+					// level-trigger configurations: fast pulses (edge + level) followed by a slow, level-only pulse at
+					// every offset from "inside the second pulse" to "two records after it" (the level scan has to find
+					// its way through the dead times of one or two edge triggers)
+					if cfg.ts.LevelTrigger && cfg.ts.LevelRising && !cfg.ts.AutoTrigger && ctrl == vCtrlBefore && g.nsamp >= 14 {
+						f1 := g.npre + 2
+						ds := []int{0, g.nsamp - 1, g.nsamp + 1, g.nsamp + g.nsamp/2, 2*g.nsamp - 1} // 0 = a single fast pulse
+						if r.Thorough() {
+							ds = nil
+							for d := 0; d <= 2*g.nsamp; d++ {
+								ds = append(ds, d)
+							}
+						}
+						for _, d := range ds {
+							fast := []int{f1, f1 + d}
+							if d == 0 {
+								fast = fast[:1]
+							}
+							for s := f1 + d - 4; s <= f1+d+2*g.nsamp && s <= L-16; s++ {
+								sc := &vTrigScenario{npre: g.npre, nsamp: g.nsamp, signed: signed, cfg: cfg, ctrl: ctrl, pulses: fast, slow: []int{s}, L: L}
+								id := fmt.Sprintf("n%d-%d/signed=%v/%s/%s/pulses=%v/slow=%d", g.npre, g.nsamp, signed, cfg.name, vCtrlNames[ctrl], fast, s)
+								each(id, sc)
+							}
+						}
+					}
 				}
 			}
 		}
@@ -522,7 +560,7 @@ func vTrigCases(r *vexp.Runner, withEMT bool, each func(id string, sc *vTrigScen
 }
 
 func (sc *vTrigScenario) build() {
-	sc.truth = vMakeTruth(sc.L, sc.signed, sc.cfg.pulseSign, sc.pulses)
+	sc.truth = vMakeTruth(sc.L, sc.signed, sc.cfg.pulseSign, sc.pulses, sc.slow...)
 	sc.vals = make([]int, sc.L)
 	for i, v := range sc.truth[0] {
 		sc.vals[i] = vFromRaw(v, sc.signed)
